@@ -90,6 +90,12 @@ pub const DECLS: &[(&str, &str)] = &[
   ("class-prop-untyped-arrow", "function disp@N(r: unknown): number { return 1; }\nexport class C@N { handle = (req) => disp@N(req); fallback = function (req) { return disp@N(req); }; }\n"),
   ("class-prop-typed-arrow-no-return", "function disp@N(r: unknown): number { return 1; }\nexport class C@N { handle = (req: @R) => disp@N(req); static sh = async (req: @R) => { await disp@N(req); }; }\n"),
   ("const-untyped-arrow-in-object", "function disp@N(r: unknown): number { return 1; }\nexport const api@N = { run: (req) => disp@N(req), n: 1 };\n"),
+  // computed keys naming a private module-level value, in every kind of signature
+  ("typelit-computed-method-key", "const km@N: unique symbol = Symbol();\nexport type TLM@N = { [km@N](a: @R): void };\n"),
+  ("typelit-computed-property-key", "const kp@N: unique symbol = Symbol();\nexport type TLP@N = { readonly [kp@N]?: @R };\n"),
+  ("typelit-computed-accessor-keys", "const kg@N: unique symbol = Symbol();\nconst ks@N: unique symbol = Symbol();\nexport type TLA@N = { get [kg@N](): @R; set [ks@N](v: @R) };\n"),
+  ("interface-computed-keys", "const ki@N: unique symbol = Symbol();\nconst kj@N: unique symbol = Symbol();\nexport interface IC@N { [ki@N](): @R; [kj@N]: number }\n"),
+  ("nested-typelit-computed-method-key", "const kn@N: unique symbol = Symbol();\nexport function fn@N(o: { inner: { [kn@N](): void } }): void {}\n"),
   ("class-members", "export class C@N {\n  p: @R = null as any;\n  static s: number = 1;\n  readonly ro?: @R;\n  constructor(public q: @R, private r: number, protected t?: @R) {}\n  m(a: @R, b: number = 1, c?: @R, ...rest: @R[]): @R { return a; }\n  get g(): @R { return this.p; }\n  set g(v: @R) {}\n  private priv(x: number): void {}\n  private pp: number = 1;\n  #hidden: number = 1;\n  #hm(): void {}\n  protected prot(): @R { return this.p; }\n  static sm(): void {}\n  [key: string]: any;\n}\n"),
   ("class-extends-private", "class Base@N { b: @R = null as any; bm(): void {} }\nexport class C@N extends Base@N { constructor() { super(); } x: number = 1; }\n"),
   ("class-implements", "export class C@N implements PubI@N { a: @R = null as any; }\nexport interface PubI@N { a: @R }\n"),
